@@ -134,6 +134,11 @@ def analyse(sess, outs, strict_lockstep=False):
         if kind == "u_parse":
             f = op["fields"]
             k = op["kind"]
+            if f is None:
+                # bytes of another packet kind handed to this parser: it must not produce a description
+                if o.ok:
+                    F(i, ["C20"], "parse of kind %s accepted a packet of another kind: %s" % (k, o.res[:80]))
+                continue
             if k == "C":
                 want = "ok %d %04x %s %s" % (f[0], f[1], f[2].tok(), hexs(f[3].val))
             elif k == "F":
